@@ -230,6 +230,15 @@ FamDefects ==
   \cup { Case("defect", DocF(<<FS("", "a", <<Spr("F")>>), F("", "title")>>, <<Frg("F", "A", <<F("", "n"), Spr("G")>>), BadFrg("G", "A", <<F("", "name")>>, b)>>), "", NoVars, {}) :
            b \in {"unknown_dir", "misplaced_dir"} }
   \cup { Case("defect", DocF(<<F("", "title")>>, <<BadFrg("F", "A", <<F("", "name")>>, b)>>), "", NoVars, {}) : b \in {"unknown_dir", "dir_unknown_arg"} }
+  \* an argument on a meta field (none of them declares any but the name of __type)
+  \cup { Plain("defect", s) : s \in {
+      <<FA("", "__typename", <<BogusArg>>), F("", "title")>>, <<FS("", "a", <<FA("t", "__typename", <<Arg("name", StrV("A"))>>), F("", "name")>>)>>,
+      <<[FS("", "__type", <<F("", "name")>>) EXCEPT !.args = <<Arg("name", StrV("A")), BogusArg>>], F("", "title")>>,
+      <<[FS("", "__type", <<F("", "name")>>) EXCEPT !.args = <<Arg("nom", StrV("A"))>>]>>,
+      <<[FS("", "__schema", <<FS("", "queryType", <<F("", "name")>>)>>) EXCEPT !.args = <<BogusArg>>], F("", "title")>> } }
+  \* a type condition that is no type: a list of one, a non-null one, the name of a directive
+  \cup { Plain("defect", <<Inl(c, <<F("", "title")>>), F("x", "title")>>) : c \in {"[Nope]", "Nope!", "skip", "[Query]", "Query!", "deprecated"} }
+  \cup { Plain("defect", <<FS("", "a", <<Inl(c, <<F("", "name")>>), F("", "n")>>)>>) : c \in {"[A]", "A!", "include"} }
   \* undefined type condition: inline fragment and fragment definition
   \cup { Plain("defect", <<Inl("Nope", <<F("", "title")>>), F("x", "title")>>),
          Plain("defect", <<FS("", "a", <<Inl("Nope", <<F("", "name")>>), F("", "n")>>)>>),
